@@ -1,0 +1,119 @@
+//! Observation hooks for external verification harnesses.
+//!
+//! Compiled only with the `verif` cargo feature; absent from normal builds. The hooks
+//! are read-only with respect to the exploration: the iteration hook receives a
+//! copy of the decision path of the iteration that just finished, the clock
+//! hook replaces the wall clock consulted by `Builder::max_duration`.
+
+use std::cell::RefCell;
+use std::time::{Duration, Instant};
+
+/// Status of a thread in a schedule branch (mirror of `rt::path::Thread`).
+#[derive(Debug, Clone, Copy, PartialEq, Eq, Hash)]
+pub enum ThreadStatus {
+    /// The thread cannot run
+    Disabled,
+    /// Runnable but not scheduled for exploration
+    Skip,
+    /// Yielded
+    Yield,
+    /// Scheduled for exploration
+    Pending,
+    /// Being explored in this iteration
+    Active,
+    /// Already explored
+    Visited,
+}
+
+/// One decision of the executed path.
+#[derive(Debug, Clone, PartialEq, Eq, Hash)]
+pub enum Branch {
+    /// A scheduling decision
+    Schedule {
+        /// Per-thread status at the end of the iteration
+        threads: Vec<ThreadStatus>,
+        /// Index of the thread that ran
+        active: Option<u8>,
+        /// Thread that was active before the branch, if it stayed a candidate
+        initial_active: Option<u8>,
+        /// Preemptions on the path leading to this branch
+        preemptions: u8,
+        /// Whether alternatives of this branch are explored
+        exploring: bool,
+    },
+    /// An atomic load / rmw reads-from decision
+    Load {
+        /// Candidate store slots
+        values: Vec<u8>,
+        /// Index of the candidate taken
+        pos: u8,
+        /// Whether alternatives of this branch are explored
+        exploring: bool,
+    },
+    /// A spurious wake-up decision
+    Spurious {
+        /// Whether the wait returned spuriously
+        spur: bool,
+        /// Whether alternatives of this branch are explored
+        exploring: bool,
+    },
+}
+
+type IterHook = Box<dyn FnMut(&[Branch])>;
+type ClockHook = Box<dyn FnMut() -> Duration>;
+
+thread_local! {
+    static ITER_HOOK: RefCell<Option<IterHook>> = RefCell::new(None);
+    static CLOCK_HOOK: RefCell<Option<ClockHook>> = RefCell::new(None);
+}
+
+/// Install (or remove) the hook called at the end of every iteration of a
+/// model run on this OS thread, after leak checking, with the executed path.
+pub fn set_iteration_hook(hook: Option<Box<dyn FnMut(&[Branch])>>) {
+    ITER_HOOK.with(|h| *h.borrow_mut() = hook);
+}
+
+/// Install (or remove) the simulated clock. The hook returns the time elapsed
+/// since the start of the model run and is consulted wherever
+/// `Builder::max_duration` would consult the wall clock.
+pub fn set_clock_hook(hook: Option<Box<dyn FnMut() -> Duration>>) {
+    CLOCK_HOOK.with(|h| *h.borrow_mut() = hook);
+}
+
+pub(crate) fn iteration_done(path: &crate::rt::Path) {
+    let installed = ITER_HOOK.with(|h| h.borrow().is_some());
+    if !installed {
+        return;
+    }
+    let records = path.verif_records();
+    // Take the hook out while it runs so that a hook may itself (un)install hooks.
+    let hook = ITER_HOOK.with(|h| h.borrow_mut().take());
+    if let Some(mut hook) = hook {
+        hook(&records);
+        ITER_HOOK.with(|h| {
+            let mut slot = h.borrow_mut();
+            if slot.is_none() {
+                *slot = Some(hook);
+            }
+        });
+    }
+}
+
+/// Clock used by `Builder::check` under the `verif` feature.
+#[derive(Debug)]
+pub(crate) struct Clock {
+    start: Instant,
+}
+
+impl Clock {
+    pub(crate) fn start() -> Clock {
+        Clock {
+            start: Instant::now(),
+        }
+    }
+
+    pub(crate) fn elapsed(&self) -> Duration {
+        let simulated = CLOCK_HOOK.with(|h| h.borrow_mut().as_mut().map(|f| f()));
+        simulated.unwrap_or_else(|| self.start.elapsed())
+    }
+}
